@@ -33,7 +33,7 @@ SHARED_NAMES = ['id', 'name', 'value']
 
 
 # ====================================================================== universes
-def gen_desc(rng, n_classes, prims=MODEL_PRIMS, namespaces=(TNS,), allow_attr=True):
+def gen_desc(rng, n_classes, prims=MODEL_PRIMS, namespaces=(TNS,), allow_attr=True, wrap_kinds=('attr',), wrap_prims=None, wrap_p=0.15):
     """classes with single inheritance, XmlAttribute members, wrapped arrays (also nested), members with
     max_occurs > 1, member names shared between classes (so that an attribute of a child can name a
     member of its parent)"""
@@ -64,8 +64,8 @@ def gen_desc(rng, n_classes, prims=MODEL_PRIMS, namespaces=(TNS,), allow_attr=Tr
                 ty = ('ref', rng.randrange(i))
             kind, mn, mx, nil = 'elem', rng.choice([0, 0, 1]), 1, rng.random() < 0.6
             r = rng.random()
-            if allow_attr and ty[0] == 'prim' and ty[1] in MODEL_PRIMS + ('i32', 'u8', 'date') and r < 0.15:
-                kind = 'attr'
+            if allow_attr and ty[0] == 'prim' and ty[1] in (wrap_prims or MODEL_PRIMS + ('i32', 'u8', 'date')) and r < wrap_p:
+                kind = rng.choice(wrap_kinds)
             elif r < 0.35:
                 ty = ('arr', ty)
                 if rng.random() < 0.15:
@@ -109,7 +109,7 @@ def prim_class(p):
 
 def build_spyne(desc):
     """the real Spyne classes (index = cid)"""
-    from spyne.model.complex import ComplexModel, ComplexModelMeta, Array, XmlAttribute
+    from spyne.model.complex import ComplexModel, ComplexModelMeta, Array, Iterable, XmlAttribute, XmlData
     out = []
 
     def ty_of(ty):
@@ -117,6 +117,8 @@ def build_spyne(desc):
             return prim_class(ty[1])
         if ty[0] == 'ref':
             return out[ty[1]]
+        if ty[0] == 'iter':
+            return Iterable(ty_of(ty[1]))
         return Array(ty_of(ty[1]))
 
     for c in desc['classes']:
@@ -128,6 +130,8 @@ def build_spyne(desc):
                 kw['max_occurs'] = 'unbounded' if f['max'] is None else f['max']
             if f['kind'] == 'attr':
                 t = XmlAttribute(t.customize(**kw))
+            elif f['kind'] == 'data':
+                t = XmlData(t.customize(**kw))
             else:
                 t = t.customize(**kw)
             ti.append((f['name'], t))
@@ -137,9 +141,13 @@ def build_spyne(desc):
 
 
 def ty_class(classes, ty):
-    from spyne.model.complex import Array
+    from spyne.model.complex import Array, Iterable, XmlAttribute, XmlData
     if ty[0] == 'prim':
         return prim_class(ty[1])
+    if ty[0] == 'wrap':
+        return (XmlAttribute if ty[2] == 'attr' else XmlData)(prim_class(ty[1]))
+    if ty[0] == 'iter':
+        return Iterable(ty_class(classes, ty[1]))
     if ty[0] == 'ref':
         return classes[ty[1]]
     return Array(ty_class(classes, ty[1]))
@@ -185,7 +193,7 @@ def class_to_ty(classes, c):
     for i, k in enumerate(classes):
         if o is k:
             return ('ref', i)
-    if o is Array:
+    if o is Array and not issubclass(c, __import__('spyne.model.complex', fromlist=['Iterable']).Iterable):
         (m,) = c._type_info.values()
         t = class_to_ty(classes, m)
         return None if t is None else ('arr', t)
@@ -246,9 +254,9 @@ def gen_leaf(rng, p):
 def gen_value(rng, desc, ty, depth, nullable=True, poly=False):
     if nullable and rng.random() < 0.15:
         return ('none',)
-    if ty[0] == 'prim':
+    if ty[0] in ('prim', 'wrap'):
         return gen_leaf(rng, ty[1])
-    if ty[0] == 'arr':
+    if ty[0] in ('arr', 'iter'):
         n = 0 if depth <= 0 else rng.choice([0, 1, 2, 3])
         return ('list', [gen_value(rng, desc, ty[1], depth - 1, True, poly) for _ in range(n)])
     cid = ty[1]
@@ -260,7 +268,7 @@ def gen_value(rng, desc, ty, depth, nullable=True, poly=False):
 
 
 def gen_member(rng, desc, f, depth, poly=False):
-    if f['kind'] == 'attr':
+    if f['kind'] in ('attr', 'data'):
         if f['min'] <= 0 and rng.random() < 0.4:
             return ('none',)
         return gen_leaf(rng, f['ty'][1])
@@ -374,14 +382,20 @@ def native_ok(cls, v, path='arg', width=True):
     integers lie within the declared width (what a validator enforces; off for validator=None, where the
     property only speaks of types).  Returns None when fine, else (path, declared, received) for the first
     offending node."""
-    from spyne.model.complex import Array, ComplexModelBase, XmlAttribute
+    from spyne.model.complex import Array, Iterable, ComplexModelBase, XmlModifier
     from spyne.model import primitive as P
     from spyne.model.binary import ByteArray
+    XmlAttribute = XmlModifier            # XmlAttribute and XmlData: the member is of the wrapped type
     if v is None:
         return None
-    if issubclass(cls, XmlAttribute):
+    if issubclass(cls, XmlModifier):
         cls = cls.type
     o = orig(cls)
+    if issubclass(o, Iterable) and not isinstance(v, (list, str, bytes, dict)) and hasattr(v, '__iter__'):
+        try:
+            v = list(v)                  # an Iterable member may be handed over as a generator,
+        except Exception:                # which deserialises lazily: a fault raised while user code iterates delivers nothing
+            return None
 
     def bad():
         return ('%s, declared class %s' % (path, o.__name__), decl_name(cls), recv_name(v) + ':' + repr(v)[:60])
@@ -558,7 +572,7 @@ class XmlEnc(object):
             elt.set('{%s}nil' % XSI, 'true')
             return
         if v[0] == 'list':
-            e = ty[1] if ty[0] == 'arr' else ('prim', 'int')
+            e = ty[1] if ty[0] in ('arr', 'iter') else ('prim', 'int')
             for x in v[1]:
                 elt.append(self.element(e, x, self.arr_ns(e), self.type_name(e)))
             return
@@ -968,7 +982,9 @@ def oracle_xml_retag_all(check, tier):
             {'name': 'strs', 'ty': ('arr', ('prim', 'text')), 'min': 0, 'max': 1, 'nillable': True, 'kind': 'elem'},
             {'name': 'uuids', 'ty': ('arr', ('prim', 'uuid')), 'min': 0, 'max': 1, 'nillable': True, 'kind': 'elem'},
             {'name': 'dts', 'ty': ('arr', ('prim', 'dt')), 'min': 0, 'max': 1, 'nillable': True, 'kind': 'elem'},
-            {'name': 'dates', 'ty': ('arr', ('prim', 'date')), 'min': 0, 'max': 1, 'nillable': True, 'kind': 'elem'}]}]}
+            {'name': 'dates', 'ty': ('arr', ('prim', 'date')), 'min': 0, 'max': 1, 'nillable': True, 'kind': 'elem'},
+            # Iterable subclasses Array: an Iterable(U) class in the registry is a candidate target for every Array(T) element
+            {'name': 'uris', 'ty': ('iter', ('prim', 'uri')), 'min': 0, 'max': 1, 'nillable': True, 'kind': 'elem'}]}]}
     classes = build_spyne(desc)
     params = [('ref', 4), ('prim', 'dec'), ('arr', ('ref', 2))]
     apps = {}
@@ -989,7 +1005,7 @@ def oracle_xml_retag_all(check, tier):
                          ('list', [('date', (2020, 1, 2))]), lv,
                          ('list', [('dec', '1.50'), ('dec', '2')]), ('list', [('dbl', 1.5)]), ('list', [('text', 'x'), ('text', '7')]),
                          ('list', [('uuid', '0123456789abcdef0123456789abcdef')]), ('list', [('dt', (2020, 1, 2, 3, 4, 5))]),
-                         ('list', [('date', (2020, 1, 2))])])
+                         ('list', [('date', (2020, 1, 2))]), ('list', [('text', 'urn:x')])])
     v = ('obj', mcid, [holder, ('dec', '1.50'), ('list', [sub])])
     doc, _ = enc.document(('ref', mcid), v, TNS, 'f')
     elts = [e for e in doc.iter() if isinstance(e.tag, str)]
@@ -1028,7 +1044,7 @@ PROTOS = {'json': 'PJson', 'yaml': 'PYaml', 'msgpack': 'PMsgpack'}
 
 def gen_ddesc(rng, n_classes):
     """universes for the dict model: no XmlAttribute members, leaf types of DictModel.dprim"""
-    d = gen_desc(rng, n_classes, prims=DICT_PRIMS, allow_attr=False)
+    d = gen_desc(rng, n_classes, prims=DICT_PRIMS, allow_attr=True, wrap_kinds=('attr', 'data'), wrap_prims=DICT_PRIMS, wrap_p=0.3)
     return d
 
 
@@ -1040,6 +1056,8 @@ def g_dprim(p):
 
 
 def g_dty(ty):
+    if ty[0] == 'wrap':
+        return '(DWrap %s)' % g_dprim(ty[1])
     if ty[0] == 'prim':
         return '(DPrim %s)' % g_dprim(ty[1])
     if ty[0] == 'ref':
@@ -1055,7 +1073,8 @@ def g_duniverse(desc, classes):
             for j, k in enumerate(classes):
                 if orig(sc) is k:
                     subs.append(j)
-        fs = ['(mkdf %s %s %s %s %s)' % (gtext(f['name']), g_dty(f['ty']), gz(f['min']), gopt(f['max'], gz), gbool(f['nillable']))
+        fs = ['(mkdf %s %s %s %s %s)' % (gtext(f['name']), g_dty(('wrap', f['ty'][1], f['kind']) if f['kind'] != 'elem' else f['ty']),
+                                         gz(f['min']), gopt(f['max'], gz), gbool(f['nillable']))
               for f in c['fields']]
         rows.append('(mkdc %s %s %s %s)' % (gtext(c['name']), gopt(c['parent'], lambda p: '%d%%nat' % p), glist(fs),
                                             glist(['%d%%nat' % j for j in subs])))
@@ -1150,7 +1169,7 @@ def dnative(desc, classes, ty, v, proto, multi=False):
         if type(v) is list:
             return ('list', [('other', 'item')] if v else [])
         return ('other', type(v).__name__)
-    p = ty[1]
+    p = ty[1]                          # ('prim', p) and ('wrap', p, kind) alike
     if p == 'bytes':
         if isinstance(v, (tuple, list)):
             if proto == 'msgpack' and len(v) == 1 and is_doc(v[0]):
@@ -1298,6 +1317,11 @@ class DictEnc(object):
                     body[key] = None if self.rng.random() < 0.5 else []
             else:
                 body[key] = self.value(f['ty'], x, f['name'])
+                if f['kind'] != 'elem' and self.roll():
+                    # every wrong kind of document at exactly the XmlAttribute / XmlData members
+                    body[key] = self.rng.choice([[], [1], ['a', 'b'], {}, {'a': 1}, 3, 2.5, True, None, 'abc'] +
+                                                ([b'abc'] if self.proto == 'msgpack' else []))
+                    self.muts.append('%s(%s)<-%s' % (f['name'], f['kind'], type(body[key]).__name__))
         if self.roll() and body:
             # positional form: the members as a sequence
             body = [body.get(f['name']) for f in flat_fields(self.desc, cid)]
@@ -1478,12 +1502,12 @@ def corr_dict(check, tier):
                 enc = DictEnc(rng, desc, pname, wrappers)
                 cases, strs, byts = [], set(), set()
                 targets = [('ref', i) for i in range(n)] + [('arr', ('prim', rng.choice(DICT_PRIMS))), ('arr', ('ref', rng.randrange(n)))] \
-                    + [('prim', p) for p in DICT_PRIMS]
+                    + [('prim', p) for p in DICT_PRIMS] + [('wrap', p, k) for p in DICT_PRIMS for k in ('attr', 'data')]
                 for ty in targets:
                     cls = ty_class(classes, ty)
-                    reps = per_class if ty[0] != 'prim' else 10
+                    reps = per_class if ty[0] not in ('prim', 'wrap') else (10 if ty[0] == 'prim' else 5)
                     for j in range(reps):
-                        enc.mutate_p = 0.0 if j == 0 else rng.choice([0.1, 0.3, 0.6, 1.0 if ty[0] == 'prim' else 0.3])
+                        enc.mutate_p = 0.0 if j == 0 else rng.choice([0.1, 0.3, 0.6, 1.0 if ty[0] in ('prim', 'wrap') else 0.3])
                         v = gen_value(rng, desc, ty, rng.randint(1, 3), False, poly=wrappers and j % 2 == 1)
                         doc0, muts = enc.document(ty, v)
                         try:
@@ -1498,7 +1522,7 @@ def corr_dict(check, tier):
                                 continue
                             prot = prots[soft]
                             nullable = True
-                            if ty[0] == 'prim' or rng.random() < 0.5:
+                            if ty[0] in ('prim', 'wrap') or rng.random() < 0.5:
                                 fn, o = 'fdv', observe(prot._from_dict_value, None, 'k', cls, doc, prot.validator)
                             else:
                                 fn, o = 'd2o', observe(prot._doc_to_object, None, cls, doc, prot.validator)
@@ -1544,7 +1568,7 @@ def oracle_dict(check, tier):
     n_univ = 4 if tier == 'quick' else 24
     n_docs = 40 if tier == 'quick' else 120
     for ui in range(n_univ):
-        desc = gen_desc(rng, rng.randint(2, 5), prims=RICH_PRIMS, allow_attr=False)
+        desc = gen_desc(rng, rng.randint(2, 5), prims=RICH_PRIMS, allow_attr=True, wrap_kinds=('attr', 'data'), wrap_prims=RICH_PRIMS, wrap_p=0.3)
         classes = build_spyne(desc)
         n = len(classes)
         params = [rng.choice([('prim', rng.choice(RICH_PRIMS)), ('ref', rng.randrange(n)), ('arr', ('ref', rng.randrange(n))),
@@ -1899,7 +1923,7 @@ def oracle_witnesses(check, tier):
             {'name': 'os', 'ty': ('arr', ('ref', 0)), 'min': 0, 'max': 1, 'nillable': True, 'kind': 'elem'},
             {'name': 'ba', 'ty': ('prim', 'bytes'), 'min': 0, 'max': 1, 'nillable': True, 'kind': 'elem'}]}]}
     classes = build_spyne(desc)
-    params = [('prim', 'int'), ('prim', 'bool'), ('ref', 0), ('ref', 1), ('prim', 'bytes'), ('prim', 'date')]
+    params = [('prim', 'int'), ('prim', 'bool'), ('ref', 0), ('ref', 1), ('prim', 'bytes'), ('prim', 'date'), ('arr', ('prim', 'int'))]
     ns = 'xmlns="urn:t" xmlns:t="urn:t" xmlns:xs="%s" xmlns:xsi="%s"' % (XSD, XSI)
     xml_docs = [
         '<f %s><p0 xsi:type="xs:string">abc</p0></f>' % ns,
@@ -1944,6 +1968,8 @@ def oracle_witnesses(check, tier):
         {'p0': 2.0}, {'p1': 1}, {'p1': 0.0}, {'p2': None}, {'p3': {'o': None}}, {'p3': {'os': [None, {'i': 1}]}},
         {'p2': {'i': 2.0, 'w': 3.0, 'u': 255.0, 'l': -1.0, 'b': 1}}, {'p0': 2.5}, {'p0': float('inf')},
         {'p4': True}, {'p4': 3}, {'p4': 2.5}, {'p4': 'abc'}, {'p4': [1, 2]}, {'p4': {}}, {'p3': {'ba': 7}},
+        {'p0': -3.0}, {'p0': 1e20}, {'p0': 255.0}, {'p2': {'i': 7.0}}, {'p2': {'w': -2147483648.0}}, {'p2': {'u': 2.0}}, {'p2': {'l': 4.0}},
+        {'p3': {'o': {'i': 5.0, 'w': 6.0}}}, {'p3': {'os': [{'i': 5.0}, {'u': 9.0}]}}, {'p6': [2.0, 3.0, 1e3]},
     ]
     for pname in ('json', 'yaml', 'msgpack'):
         for wrappers in (False, True):
@@ -1978,6 +2004,46 @@ def oracle_witnesses(check, tier):
                         break
 
 
+def oracle_wrapped_leaves(check, tier):
+    """XmlAttribute(T) / XmlData(T) members for every leaf kind T, every wrong kind of document at exactly those members,
+    as a member of an argument, of a nested object and of an array item; JSON, YAML, MessagePack, validator soft"""
+    fields = []
+    for p in RICH_PRIMS:
+        for kind in ('attr', 'data'):
+            fields.append({'name': '%s_%s' % (kind[0], p), 'ty': ('prim', p), 'min': 0, 'max': 1, 'nillable': True, 'kind': kind})
+    desc = {'classes': [
+        {'ns': TNS, 'name': 'W', 'parent': None, 'fields': fields},
+        {'ns': TNS, 'name': 'H', 'parent': None, 'fields': [
+            {'name': 'w', 'ty': ('ref', 0), 'min': 0, 'max': 1, 'nillable': True, 'kind': 'elem'},
+            {'name': 'ws', 'ty': ('arr', ('ref', 0)), 'min': 0, 'max': 1, 'nillable': True, 'kind': 'elem'}]}]}
+    classes = build_spyne(desc)
+    params = [('ref', 0), ('ref', 1)]
+    wrong = [[], [1], ['a', 'b'], {}, {'a': 1}, 3, 2.5, True, None, 'abc', '']
+    for pname in ('json', 'yaml', 'msgpack'):
+        prot = make_prot(pname, 'soft', False)
+        app, cap, in_msg = build_app(classes, params, prot, type(prot)())
+        pcs = list(in_msg._type_info.values())
+        for f in fields:
+            for val in wrong + ([b'abc'] if pname == 'msgpack' else []):
+                for pos, d in (('argument', {'p0': {f['name']: val}}), ('nested', {'p1': {'w': {f['name']: val}}}),
+                               ('array item', {'p1': {'ws': [{f['name']: val}]}})):
+                    doc = {b'f': d} if pname == 'msgpack' else {'f': d}
+                    res = drive(app, encode_body(pname, doc), cap)
+                    check.count(('wrapped-leaf', pname, f['name'], repr(val), pos))
+                    stat('%s validator=soft: %s' % (type(prot).__name__, 'function entered' if res[0] == 'called' else 'refused'))
+                    if res[0] != 'called':
+                        continue
+                    for i, (pc, a) in enumerate(zip(pcs, res[1])):
+                        bad = native_ok(pc, a, 'p%d' % i)
+                        if bad:
+                            check.fail(dict_key(type(prot).__name__, 'soft', bad),
+                                       '%s(validator=soft): the service function received %s where %s(%s) is declared (at %s, %s); request %r'
+                                       % (type(prot).__name__, bad[2], 'XmlAttribute' if f['kind'] == 'attr' else 'XmlData', bad[1], bad[0], pos, doc),
+                                       {'kind': 'dict-request', 'protocol': pname, 'wrappers': False, 'validator': 'soft', 'universe': desc,
+                                        'params': params, 'document': repr(doc), 'mutations': ['%s member <- %s' % (f['kind'], type(val).__name__)]})
+                            break
+
+
 # ====================================================================== run
 def run(check):
     tier = check.tier
@@ -1994,13 +2060,16 @@ def run(check):
         'booleans, 0/1/other integers, integral / fractional / huge / NaN / infinite floats, numeric and other strings, bytes, lists, '
         'maps, nested lists, null inside arrays, renamed / bytes / upper-cased keys, positional objects, wrapper keys naming every '
         'class), passed once over the real wire format, for JSON, YAML and MessagePack, ignore_wrappers on and off, validator soft '
-        'and None.  A case is distinct by (protocol, configuration, entry point, declared type, document).  Oracle: generated services '
+        'and None; members declared XmlAttribute(T) / XmlData(T) around every modelled leaf kind, with every wrong kind of document '
+        'at exactly those members (model: DWrap; the unwrap-then-validate statement order of _from_dict_value is read from the source).  '
+        'A case is distinct by (protocol, configuration, entry point, declared type, document).  Oracle: generated services '
         'with the rich leaf set (also Decimal, DateTime, Time, Duration, Uuid, AnyUri) through ServerBase / WSGI for XmlDocument, '
         'Soap11, Soap12 (with a SOAP header class), JsonDocument, YamlDocument, MessagePackDocument and HttpRpc (GET), and a fixed '
         'interface on which every element position is retagged with every registered class key (including Array classes whose item '
         'types derive from one another only as Spyne classes: decimal/double/integer, string/uuid, dateTime/date), and SEQUENCES '
         'of requests on one long-lived application (two unrelated class trees, wrappers on; JSON/YAML/MessagePack and '
-        'XmlDocument/Soap11/Soap12; ServerBase and WSGI).')
+        'XmlDocument/Soap11/Soap12; ServerBase and WSGI); a battery of XmlAttribute / XmlData members around all fifteen leaf kinds x '
+        'eleven wrong document kinds x argument / nested / array-item positions; an Iterable(U) class in the retag interface.')
     check.trusted = list(lib.COMMON_TRUSTED) + [
         'the oracle predicate native_ok (harness/c04.py): isinstance / value-space membership against the declared Spyne classes; '
         'an int where Double or Decimal is declared is accepted (numeric tower), a bool is an int; integer width is demanded only '
@@ -2042,6 +2111,7 @@ def run(check):
     check.check_sources()
     check.prove('Props.C04', THEOREMS)
     oracle_witnesses(check, tier)
+    oracle_wrapped_leaves(check, tier)
     corr_xml(check, tier)
     lib.flush_correspondences(check)
     oracle_xml(check, tier)
